@@ -55,8 +55,24 @@ pub fn run_one(
         Ok(r) => r,
         Err(_) => Ok(Err(anyhow::anyhow!("run() panicked"))),
     };
-    // give the server task a moment to log what it has read
-    std::thread::sleep(Duration::from_millis(5));
+    // the client has written all requests of the phase before it awaits the first reply, but the
+    // server task may not have read the later ones yet when the run returns: wait until its log has
+    // been stable for 60 ms (at most 1 s)
+    let mut last = usize::MAX;
+    let mut stable = 0;
+    for _ in 0..200 {
+        std::thread::sleep(Duration::from_millis(5));
+        let n = log.lock().unwrap().names.len();
+        if n == last {
+            stable += 1;
+            if stable >= 12 {
+                break;
+            }
+        } else {
+            stable = 0;
+            last = n;
+        }
+    }
     let names = log.lock().unwrap().names.clone();
     match res {
         Err(_) => RunObs {
